@@ -290,6 +290,62 @@ def _funnel_helper(prog, f, o):
     return True
 
 
+def excl_fatal_rule(chk, prog):
+    """K12-exclfatal: exclusive creation is exclusive.  open(O_CREAT|O_EXCL) and mknod refuse a name that exists;
+    that refusal is what keeps the unpacker from writing through an object it did not make itself (a symlink that is already
+    there, whoever put it there).  On the edge where one of them failed, no path reaches `return 0`: the entry is not
+    carried on with as if it had been created (mkdir is the reviewed exception: an existing directory is entered)."""
+    from .c13 import _e7_walk, _e7_zero_known
+    n = 0
+    for f in prog.functions():
+        if f.decl or not f.unit.src.startswith("bin/rdsquashfs/"):
+            continue
+        f.build()
+        for c in f.calls():
+            name = norm_callee(c.callee)
+            if name in ("open", "open64"):
+                fl = const_int(c.ops[1])
+                if fl is None or not (fl & O_CREAT):
+                    continue
+            elif name != "mknod":
+                # symlink() is left out: the later passes never go through a symlink entry (lchown-style calls, fchmodat
+                # only for non-symlinks), so an existing object under a symlink's name is re-owned in place at worst
+                continue
+            n += 1
+            chk.analysed(f)
+            inst = "%s:%s@%d" % (f.name, name, c.line)
+            edges = []
+            for u in f.uses.get(c, []):
+                if u.op != "icmp" or not (u.ops[1].is_const and u.ops[1].is_int and u.ops[1].sval == 0):
+                    continue
+                for br in f.uses.get(u, []):
+                    if br.op != "br" or len(br.x["succ"]) != 2:
+                        continue
+                    succ = {"slt": br.x["succ"][0], "sge": br.x["succ"][1], "ne": br.x["succ"][0], "eq": br.x["succ"][1]}.get(u.pred)
+                    if succ is not None:
+                        edges.append((br, succ))
+            if not edges:
+                chk.violation("K12-exclfatal", inst, c, "the result of %s is not tested: a name that already exists is carried on "
+                              "with as if the unpacker had created it" % name)
+                continue
+            bad = None
+            for br, succ in edges:
+                zero = _e7_zero_known(f, br.bb) - {id(c)}
+                for (v, r, _p) in _e7_walk(prog, f, br, succ, [], zero, {id(c)}):
+                    if (v.is_const and v.is_int and v.sval == 0) or id(v) in zero:
+                        bad = r
+                        break
+                if bad is not None:
+                    break
+            if bad is None:
+                chk.ok("K12-exclfatal", inst, c, "no path from the failure edge of the exclusive creation returns success")
+            else:
+                chk.violation("K12-exclfatal", inst, bad, "after %s() failed (line %d) a path returns 0: an object that was already "
+                              "there under this name (e.g. a symlink leading out of the unpack root) is taken for the one the "
+                              "unpacker made, and the later passes open, chmod or chown it by path" % (name, c.line))
+    return n
+
+
 def flags_rule(chk, prog, mset):
     """C06-c hardening flags at the creation / attribute sites of the rdsquashfs sources"""
     for f in prog.functions():
@@ -860,6 +916,56 @@ def get_path_rule(chk, prog):
         chk.violation("K1-getpath", "rejects-dot", f, "sqfs_tree_node_get_path no longer refuses '.' / '..' components")
 
 
+def _is_name_ptr(v):
+    return any(x.is_inst and x.op == "getelementptr" and x.fields() and x.fields()[-1][1] == "name" and
+               x.fields()[-1][0].startswith(NODE) for x in backward_slice(v))
+
+
+def _whole_length(prog, f, v, depth=0):
+    """v is strlen(<node name>) -- directly, or through a static helper all of whose returns are that"""
+    v = strip_casts(v)
+    while v.is_inst and v.op in ("zext", "sext", "trunc"):
+        v = strip_casts(v.ops[0])
+    if not (v.is_inst and v.op == "call"):
+        return False
+    if norm_callee(v.callee) == "strlen":
+        return _is_name_ptr(v.ops[0])
+    g = prog.fn(v.callee, f.unit) if v.callee else None
+    if g is None or g.decl or depth > 2:
+        return False
+    g.build()
+    from ..errflow import ret_sources
+    srcs = ret_sources(g)
+    return bool(srcs) and all(_whole_length(prog, g, x, depth + 1) for (x, _b) in srcs)
+
+
+def whole_name_rule(chk, prog):
+    """K12-wholename: the duplicate check compares whole names (strcmp), so the path of an entry is made of whole names:
+    every copy of a node's name into the path buffer is as long as strlen() of that name.  A clamped, rounded or otherwise
+    re-computed length lets two entries that differ behind the cut land on one path -- a symlink and a directory that
+    passed the duplicate check as different names."""
+    f = prog.need_fn("sqfs_tree_node_get_path")
+    f.build()
+    n = 0
+    for c in f.calls():
+        nm = norm_callee(c.callee)
+        if nm in ("memcpy", "memmove", "strncpy", "strncat", "mempcpy") and len(c.ops) >= 3 and _is_name_ptr(c.ops[1]):
+            n += 1
+            chk.analysed(f)
+            inst = "%s:%s@%d" % (f.name, nm, c.line)
+            if _whole_length(prog, f, c.ops[2]):
+                chk.ok("K12-wholename", inst, c, "the component is copied with the length strlen() reports for the name")
+            else:
+                chk.violation("K12-wholename", inst, c, "a node's name is copied into the path with a length that is not strlen() "
+                              "of that name: names that the duplicate check told apart can end up as the same path component "
+                              "(a symlink and a directory on one path)")
+        elif nm in ("strcpy", "stpcpy", "strcat") and len(c.ops) >= 2 and _is_name_ptr(c.ops[1]):
+            n += 1
+            chk.analysed(f)
+            chk.ok("K12-wholename", "%s:%s@%d" % (f.name, nm, c.line), c, "the whole string is copied")
+    return n
+
+
 def run(chk):
     prog = load_program(TOOL)
     chk.explanation = (
@@ -870,7 +976,7 @@ def run(chk):
         "sqfs_tree_node_get_path followed by canonicalize_name on the same buffer, everything else is a constant or a "
         "command-line field; (c) constant hardening flags (O_CREAT|O_EXCL no O_TRUNC, AT_SYMLINK_NOFOLLOW, lsetxattr, "
         "fchmodat guarded by !S_ISLNK); (d) duplicate check and O_EXCL creation pass dominate the passes that re-open "
-        "by path, failed chdir never unpacks; (e) command-line paths canonicalised; (f) get_path refuses '/', '.', '..'. Further rules: K2-sorttotal (the sort returns its input unsorted only in the trivial cases or after a full adjacent scan), K2-walk (the sorting/checking pass reaches every directory), K12-flags also rejects name-creating calls outside the reviewed set; K1-order follows the check into helpers. Provenance looks through copies and hand-filled buffers: a strdup is what it copied, a malloc'ed path is what was memcpy'ed / sprintf'ed into it.")
+        "by path, failed chdir never unpacks; (e) command-line paths canonicalised; (f) get_path refuses '/', '.', '..'. Further rules: K2-sorttotal (the sort returns its input unsorted only in the trivial cases or after a full adjacent scan), K2-walk (the sorting/checking pass reaches every directory), K12-flags also rejects name-creating calls outside the reviewed set; K1-order follows the check into helpers. Provenance looks through copies and hand-filled buffers: a strdup is what it copied, a malloc'ed path is what was memcpy'ed / sprintf'ed into it. K12-exclfatal: on the edge where open(O_CREAT|O_EXCL) or mknod failed no path returns success (their objects are later opened and re-moded by path) (an object that is already there is never taken for one the unpacker made). K12-wholename: a node's name is copied into the path with the length strlen() reports for it (the path is made of the names the duplicate check compared).")
     chk.assumptions = ["that sort + adjacent compare finds every duplicate, and races with other processes, are not decided"]
     from .. import taint
     taint.CONTENT[0] = True      # a copy or a hand-filled buffer is judged by what was copied into it
@@ -884,9 +990,13 @@ def run(chk):
         chk.broke("only %d gated tree walks found (expected the creation, file-list and attribute walks)" % len(walks))
     sanitiser_rule(chk, prog, sinks)
     flags_rule(chk, prog, mset)
+    excl_fatal_rule(chk, prog)
+    chk.floor("K12-exclfatal", 2)
     ordering_rule(chk, prog, mset)
     cmdline_rule(chk, prog)
     get_path_rule(chk, prog)
+    whole_name_rule(chk, prog)
+    chk.floor("K12-wholename", 1)
     from .c16 import rule_type_twins
     rule_type_twins(chk, prog)
     chk.floor("K12-twins", 5)
